@@ -39,6 +39,41 @@ type dumper struct {
 	sb      strings.Builder
 	ids     map[uintptr]int
 	shallow map[string]bool
+	intMap  func(int64) string
+	// limit maps an array/slice field name to the sibling int field that holds
+	// its live length: elements beyond it are dead storage and are not rendered.
+	limit map[string]string
+}
+
+// DumpLimited is Dump except that, in a struct that has both fields of a
+// (array, count) pair in limit, only the first count elements of the array are
+// rendered (B-tree nodes keep dead entries beyond m that the code never reads
+// before overwriting them).
+func DumpLimited(v any, limit map[string]string) string {
+	d := &dumper{ids: map[uintptr]int{}, limit: limit}
+	d.walk(reflect.ValueOf(v))
+	return d.sb.String()
+}
+
+// DumpRenamed is Dump with every signed integer rendered through rename
+// (used for data-independent containers, where values are renamed
+// canonically by first occurrence).
+func DumpRenamed(v any, rename func(int64) string) string {
+	d := &dumper{ids: map[uintptr]int{}, intMap: rename}
+	d.walk(reflect.ValueOf(v))
+	return d.sb.String()
+}
+
+// Get reads a (possibly unexported) field path of a struct or pointer to struct.
+func Get(v any, path ...string) reflect.Value {
+	rv := reflect.ValueOf(v)
+	for _, p := range path {
+		for rv.Kind() == reflect.Pointer || rv.Kind() == reflect.Interface {
+			rv = rv.Elem()
+		}
+		rv = access(rv.FieldByName(p))
+	}
+	return rv
 }
 
 func (d *dumper) walkShallow(v reflect.Value) {
@@ -97,7 +132,11 @@ func (d *dumper) walk(v reflect.Value) {
 	case reflect.Bool:
 		fmt.Fprintf(&d.sb, "%t", v.Bool())
 	case reflect.Int, reflect.Int8, reflect.Int16, reflect.Int32, reflect.Int64:
-		fmt.Fprintf(&d.sb, "%d", v.Int())
+		if d.intMap != nil {
+			d.sb.WriteString(d.intMap(v.Int()))
+		} else {
+			fmt.Fprintf(&d.sb, "%d", v.Int())
+		}
 	case reflect.Uint, reflect.Uint8, reflect.Uint16, reflect.Uint32, reflect.Uint64, reflect.Uintptr:
 		fmt.Fprintf(&d.sb, "%d", v.Uint())
 	case reflect.Float32, reflect.Float64:
@@ -157,7 +196,19 @@ func (d *dumper) walk(v reflect.Value) {
 			}
 			d.sb.WriteString(t.Field(i).Name)
 			d.sb.WriteString(":")
-			if d.shallow[t.Field(i).Name] {
+			if lf, ok := d.limit[t.Field(i).Name]; ok && v.FieldByName(lf).IsValid() {
+				n := int(access(v.FieldByName(lf)).Int())
+				f := access(v.Field(i))
+				if n > f.Len() {
+					n = f.Len()
+				}
+				fmt.Fprintf(&d.sb, "first%d[", n)
+				for j := 0; j < n; j++ {
+					d.walk(f.Index(j))
+					d.sb.WriteString(",")
+				}
+				d.sb.WriteString("]")
+			} else if d.shallow[t.Field(i).Name] {
 				d.walkShallow(v.Field(i))
 			} else {
 				d.walk(v.Field(i))
